@@ -391,7 +391,7 @@ def gen(chk, sd, num, depth, seed, name):
     cfgtxt = open(os.path.join(vf.VERIF, "spec", SPEC, "TableGrants_Gen.cfg")).read()
     cfgtxt = re.sub(r"Depth = \d+", "Depth = %d" % depth, cfgtxt)
     r = vf.tlc(SPEC, "TableGrants_Gen", "gen_run.cfg", sd, workers=1, simulate="num=%d" % num, depth=depth + 3,
-               seed=seed, timeout=1500, files={"gen_run.cfg": cfgtxt})
+               seed=seed, timeout=3000, files={"gen_run.cfg": cfgtxt})
     if r.violated or r.error or r.rc != 0:
         raise vf.NoVerdict("behaviour generation failed: %s %s\n%s" % (r.violated, r.error, r.stdout[-2000:]))
     behs = [b for b in r.records if isinstance(b, list) and b and b[-1]["call"]["kind"] == "end"]
@@ -435,14 +435,15 @@ def run():
         "@sql, @transaction, the tables list and ?transaction= requests are not driven"]
     with vf.scratch() as sd:
         nsrv = 8 if thorough else 4
-        nbeh = (8 * 260) if thorough else 64
+        nbeh = (8 * 150) if thorough else 64
         depth = 60 if thorough else 40
         ngen = 8 if thorough else 1
-        pool = ThreadPoolExecutor(max_workers=12)
+        pool = ThreadPoolExecutor(max_workers=14)
         # everything that does not depend on anything else runs side by side
         f_build = pool.submit(lambda: vf.build_ego(sd, private_overlay(sd)))
         f_mc = pool.submit(vf.tlc, SPEC, "TableGrants", "TableGrants_MC.cfg" if thorough else "TableGrants_MCq.cfg", sd,
-                           workers=8 if thorough else 4, timeout=1500)
+                           workers=8 if thorough else 4, timeout=2400)
+        f_mc3 = pool.submit(vf.tlc, SPEC, "TableGrants", "TableGrants_MC3.cfg", sd, workers=8, timeout=2400) if thorough else None
         f_neg = {v: pool.submit(vf.tlc, SPEC, "TableGrants", "TableGrants_MC_%s.cfg" % v, sd, workers=2, timeout=600)
                  for v in ("anyuser", "inverted")}
         per = nbeh // ngen
@@ -451,6 +452,8 @@ def run():
         # 1. the design satisfies C43 (exhaustive at the stated bound)
         r = vf.tlc_ok(f_mc.result(), "TableGrants MC")
         chk.add_tlc(r, "MC asis (exhaustive to MaxSteps)")
+        if f_mc3:
+            chk.add_tlc(vf.tlc_ok(f_mc3.result(), "TableGrants MC3"), "MC asis, 3 users incl. identity-wide dsn.admin, with row content")
         # 2. negative controls (vacuity guard)
         for v, f in f_neg.items():
             rn = f.result()
